@@ -57,3 +57,19 @@ Example C19_nonvacuous :
   run_query h dom [TVar 1; TMap (MField 1) (TVar 1)] (Some (CCmp Ne (TMap (MField 2) (TVar 1)) (TLit (VTup [AInt 2]))))
   = [[VObj 0; VA (AStr "")]; [VObj 1; VA (AStr "u")]].
 Proof. vm_compute. repeat split. Qed.
+
+(* a CONSTANT in condition position (and_(c, flag), not_(flag) with a Python value) is read as a boolean like every other
+   expression there: one row - the incoming binding, untouched - flagged by the truth of the constant (inverted under not_), and
+   nothing when the constant is false and false rows are not asked for.  (symbolic.py: Literal._evaluate__, repaired by 1e19dac;
+   the generators pass bool constants as operands of and_ / or_ / not_.) *)
+Theorem C19_constant_condition : forall h dom v inv b ywf,
+  eval h dom (CTruth (TLit v) inv) b ywf
+  = (if ywf || negb (negb (xorb inv (truthy v))) then [(b, negb (xorb inv (truthy v)))] else []).
+Proof. intros. cbn [eval eval_term flat_map fst snd]. now rewrite app_nil_r. Qed.
+Print Assumptions C19_constant_condition.
+
+(* ... so a false constant conjunct empties the result and a true one changes nothing (truth of the elaborated condition) *)
+Theorem C19_constant_conjunct : forall h dom c v e,
+  isat h dom (CAnd c (CTruth (TLit v) false)) e = isat h dom c e && truthy v.
+Proof. intros. cbn [isat tval]. now rewrite Bool.xorb_false_l. Qed.
+Print Assumptions C19_constant_conjunct.
